@@ -10,7 +10,7 @@
    hand-transcribed eq_np / eq_borders / spacing, compared with the grid objects on every run. *)
 From Coq Require Import ZArith List QArith Qcanon Bool Arith Lia.
 From SG Require Import Base.QcUtil Base.PyLib Base.PyNum Base.PyNumMath Model.Tensor Model.LocalGrids Model.LocalRules
-  Gen.LocalGrid1DGen Proofs.TensorRule Proofs.LocalGridsBase Proofs.LocalGridsTrap Proofs.LocalGridsMain Proofs.GenLocalGridsEq.
+  Gen.LocalGrid1DGen Proofs.TensorRule Proofs.LocalGridsBase Proofs.LocalGridsTrap Proofs.LocalGridsMain Proofs.GenLocalGridsEq Proofs.TouchTol.
 Import ListNotations.
 Open Scope Qc_scope.
 
@@ -30,18 +30,27 @@ Theorem C08_gen_versions : forall fixed modb bnd np npwb lo up s e,
 Proof. exact gen_versions. Qed.
 Print Assumptions C08_gen_versions.
 
-Theorem C08_gen_trap_level_to_num_points : forall bnd s e a b l,
-  TrapezoidalGrid1D_level_to_num_points_1d bnd s e a b (Z.of_nat l)
-  = Some (qn (num_points_eq bnd (py_isclose s a) (Qc_eqb e b) (npwb_of_level l))).
-Proof. exact gen_trap_level_to_num_points. Qed.
-Theorem C08_gen_clenshaw_curtis_level_to_num_points : forall bnd s e a b l,
-  ClenshawCurtisGrid1D_level_to_num_points_1d bnd s e a b (Z.of_nat l)
-  = Some (qn (num_points_eq bnd (py_isclose s a) (py_isclose e b) (npwb_of_level l))).
-Proof. exact gen_cc_level_to_num_points. Qed.
+(* the announced counts: num_points_eq with the touch tests of the version in the working tree - domrel = false: the code as it is
+   (math.isclose(start, a), relative to the COORDINATE; end == b resp. isclose(end, b)); domrel = true: with
+   fixes/C08-boundary-tests-domain-relative.patch (|x - bound| <= 1e-8 |b - a| in Grid1d.touches_lower/upper_boundary) *)
+Theorem C08_gen_counts_are_model : exists domrel,
+  (forall bnd s e a b l, TrapezoidalGrid1D_level_to_num_points_1d bnd s e a b (Z.of_nat l)
+     = Some (qn (num_points_eq bnd (touch_lower_v domrel s a b) (touch_upper_trap_v domrel e a b) (npwb_of_level l)))) /\
+  (forall bnd s e a b l, ClenshawCurtisGrid1D_level_to_num_points_1d bnd s e a b (Z.of_nat l)
+     = Some (qn (num_points_eq bnd (touch_lower_v domrel s a b) (touch_upper_cc_v domrel e a b) (npwb_of_level l)))).
+Proof. exact gen_counts_version. Qed.
+Print Assumptions C08_gen_counts_are_model.
+
+(* what the relative tolerance of math.isclose does on a domain far from the origin (known finding
+   C08-isclose-relative-far-domain): an INTERIOR sub-box of [2^34, 2^34+1] counts as touching; not so with the repaired test *)
+Theorem C08_gen_isclose_misfires_far_domain_refuted :
+  exists s a b : Qc, a < s /\ s < b /\ touch_lower_v false s a b = true /\ touch_lower_v true s a b = false.
+Proof. exact isclose_misfires_far_domain. Qed.
+Print Assumptions C08_gen_isclose_misfires_far_domain_refuted.
+
 Theorem C08_gen_gauss_level_to_num_points : forall l,
   GaussGrid1D_level_to_num_points_1d (Z.of_nat l) = Some (qn (npwb_of_level l)).
 Proof. exact gen_gauss_level_to_num_points. Qed.
-Print Assumptions C08_gen_clenshaw_curtis_level_to_num_points.
 
 (* ---- C08 for what the GENERATED weight function returns (whichever version the working tree contains) ---- *)
 Theorem C08_gen_weights_count : forall modb bnd x, exists ws,
@@ -68,20 +77,65 @@ Theorem C08_gen_boundary_off : forall x woff won, dim_ok x ->
 Proof. destruct gen_is_model_version as [fixed H]. exact (gen_boundary_off fixed H). Qed.
 Print Assumptions C08_gen_boundary_off.
 
-(* the announced count of the generated function is the length of what the generated weight function returns
-   (isclose = equality on the lattice of the correspondence; always true when the sub-box starts AT the boundary) *)
-Theorem C08_gen_announced_is_returned : forall modb bnd x,
-  py_isclose (d_s x) (d_a x) = Qc_eqb (d_s x) (d_a x) ->
+(* the announced count of the generated function is the length of what the generated weight function returns, wherever the
+   touch tests of the code decide like equality (always when the sub-box starts / ends AT the boundary; on the lattice of the
+   correspondence; NOT for the code as it is on far domains, see above) *)
+Theorem C08_gen_announced_is_returned : exists domrel, forall modb bnd x,
+  touch_lower_v domrel (d_s x) (d_a x) (d_b x) = Qc_eqb (d_s x) (d_a x) ->
+  touch_upper_trap_v domrel (d_e x) (d_a x) (d_b x) = Qc_eqb (d_e x) (d_b x) ->
   exists ws, gen_weights_of modb bnd x = Some ws /\
     TrapezoidalGrid1D_level_to_num_points_1d bnd (d_s x) (d_e x) (d_a x) (d_b x) (Z.of_nat (d_level x))
     = Some (qn (length ws)).
-Proof. destruct gen_is_model_version as [fixed H]. exact (gen_announced_is_returned fixed H). Qed.
+Proof.
+  destruct gen_counts_version as [domrel [Ht _]]. destruct gen_is_model_version as [fixed H]. exists domrel.
+  intros modb bnd x H1 H2. exact (gen_announced_is_returned fixed H domrel modb bnd x Ht H1 H2).
+Qed.
 Print Assumptions C08_gen_announced_is_returned.
+
+(* the repaired boundary tests (|x - bound| <= 1e-8 |b - a|, /repo 1502b9c) decide like equality on every sub-box whose ends
+   are ON the domain boundary or more than 1e-8 |b - a| away from it: for the repaired code "isclose modelled as equality"
+   is a theorem there, not an assumption *)
+Theorem C08_gen_repaired_tests_are_equality : forall x, dim_ok x -> clear_of_boundary x ->
+  touch_lower_v true (d_s x) (d_a x) (d_b x) = Qc_eqb (d_s x) (d_a x) /\
+  touch_upper_trap_v true (d_e x) (d_a x) (d_b x) = Qc_eqb (d_e x) (d_b x) /\
+  touch_upper_cc_v true (d_e x) (d_a x) (d_b x) = Qc_eqb (d_e x) (d_b x).
+Proof. exact repaired_tests_are_equality. Qed.
+Print Assumptions C08_gen_repaired_tests_are_equality.
+
+(* ... hence, when the working tree contains the repaired tests, announced = returned on all such sub-boxes, any domain *)
+Theorem C08_gen_announced_is_returned_clear : exists domrel,
+  (forall bnd s e a b l, TrapezoidalGrid1D_level_to_num_points_1d bnd s e a b (Z.of_nat l)
+     = Some (qn (num_points_eq bnd (touch_lower_v domrel s a b) (touch_upper_trap_v domrel e a b) (npwb_of_level l)))) /\
+  (domrel = true -> forall modb bnd x, dim_ok x -> clear_of_boundary x ->
+     exists ws, gen_weights_of modb bnd x = Some ws /\
+       TrapezoidalGrid1D_level_to_num_points_1d bnd (d_s x) (d_e x) (d_a x) (d_b x) (Z.of_nat (d_level x))
+       = Some (qn (length ws))).
+Proof.
+  destruct gen_counts_version as [domrel [Ht _]]. destruct gen_is_model_version as [fixed H]. exists domrel.
+  split; [exact Ht|]. intros -> modb bnd x Hok Hc.
+  destruct (repaired_tests_are_equality x Hok Hc) as (E1 & E2 & _).
+  exact (gen_announced_is_returned fixed H true modb bnd x Ht E1 E2).
+Qed.
+Print Assumptions C08_gen_announced_is_returned_clear.
 
 (* non-vacuity: the generated functions evaluate (sub-box touching the lower boundary, level 2, modified basis) *)
 Example C08_gen_nonvacuous :
   let x := mkdim 0 1 0 (1#2) 2 in
   option_map (map this) (gen_weights_of true false x) = Some [1#4; 1#16; 1#8; 1#16]%Q /\
   option_map this (TrapezoidalGrid1D_level_to_num_points_1d false (d_s x) (d_e x) (d_a x) (d_b x) 2) = Some (4#1)%Q /\
-  py_isclose (d_s x) (d_a x) = Qc_eqb (d_s x) (d_a x).
-Proof. vm_compute. repeat split. Qed.
+  (forall domrel, touch_lower_v domrel (d_s x) (d_a x) (d_b x) = Qc_eqb (d_s x) (d_a x) /\
+                  touch_upper_trap_v domrel (d_e x) (d_a x) (d_b x) = Qc_eqb (d_e x) (d_b x)).
+Proof. cbv zeta. split; [vm_compute; reflexivity | split; [vm_compute; reflexivity | intros [|]; vm_compute; split; reflexivity]]. Qed.
+
+(* the interior sub-box [2^34+1/2, 2^34+3/4] of the far domain meets the hypotheses of the theorem above (the old test misfired
+   exactly there: C08_gen_isclose_misfires_far_domain_refuted) *)
+Example C08_gen_clear_nonvacuous :
+  let x := mkdim 17179869184 17179869185 (34359738369 # 2) (68719476739 # 4) 2 in
+  dim_ok x /\ clear_of_boundary x /\ touch_lower_v true (d_s x) (d_a x) (d_b x) = false /\ touch_lower_v false (d_s x) (d_a x) (d_b x) = true.
+Proof.
+  cbv zeta. split; [|split; [|split]].
+  - repeat split; vm_compute; congruence.
+  - split; right; vm_compute; reflexivity.
+  - vm_compute. reflexivity.
+  - vm_compute. reflexivity.
+Qed.
